@@ -46,6 +46,14 @@ fn main() {
         c12dbg();
         return;
     }
+    if path == "c12dbg2" {
+        for i in 0..300 {
+            if c12dbg2(i) {
+                break;
+            }
+        }
+        return;
+    }
     let doc: serde_json::Value = serde_json::from_slice(&std::fs::read(&path).unwrap()).unwrap();
     if doc["property"] == "C07" {
         c07_debug(&path);
@@ -200,4 +208,70 @@ fn c12dbg() {
     show("removed T");
     println!("undo -> {}", mgr.undo_blocking());
     show("after undo 2");
+}
+
+
+fn c12dbg2(round: u32) -> bool {
+    use yrs::undo::Options as UOpts;
+    use yrs::{Array, Doc, GetString, Options, Text, TextPrelim, Transact, ReadTxn, StateVector};
+    let mut o = Options::with_client_id(yrs::block::ClientID::new(1));
+    o.skip_gc = true;
+    let doc = Doc::with_options(o);
+    let arr = doc.get_or_insert_array("arr");
+    let mut uo = UOpts::<()>::default();
+    uo.capture_timeout_millis = 0;
+    let mut mgr = yrs::undo::UndoManager::with_options(uo);
+    mgr.expand_scope(&doc, &arr);
+    let blocks = |d: &Doc| -> Vec<String> {
+        let txn = d.transact();
+        yrs::verif_hooks::store_blocks(txn.store()).iter().map(|b| format!("{}#{}+{}{}", b.client.get(), b.clock, b.len, if b.deleted { "d" } else { "" })).collect()
+    };
+    let t = arr.insert(&mut doc.transact_mut(), 0, TextPrelim::new("Xwy"));
+    mgr.reset();
+    {
+        let mut txn = doc.transact_mut();
+        t.insert(&mut txn, 0, "abcd");
+        t.remove_range(&mut txn, 5, 2);
+    }
+    mgr.reset();
+    assert!(mgr.undo_blocking());
+    {
+        let mut txn = doc.transact_mut();
+        t.remove_range(&mut txn, 1, 1);
+        let l = t.len(&txn);
+        t.insert(&mut txn, l, "PQ");
+    }
+    mgr.reset();
+    assert!(mgr.undo_blocking());
+    assert!(mgr.undo_blocking());
+    let before = blocks(&doc);
+    let sv = doc.transact().state_vector();
+    assert!(mgr.redo_blocking());
+    let local = {
+        let txn = doc.transact();
+        match arr.get(&txn, 0) {
+            Some(yrs::Out::YText(t)) => t.get_string(&txn),
+            other => format!("{:?}", other.is_some()),
+        }
+    };
+    let fol = Doc::with_client_id(2);
+    let farr = fol.get_or_insert_array("arr");
+    let full = doc.transact().encode_state_as_update_v1(&StateVector::default());
+    fol.transact_mut().apply_update(Update::decode_v1(&full).unwrap()).unwrap();
+    let remote = {
+        let txn = fol.transact();
+        match farr.get(&txn, 0) {
+            Some(yrs::Out::YText(t)) => t.get_string(&txn),
+            other => format!("{:?}", other.is_some()),
+        }
+    };
+    if local != remote {
+        println!("round {}: local {:?} remote {:?}", round, local, remote);
+        println!("blocks before redo {:?}", before);
+        println!("blocks after redo  {:?}", blocks(&doc));
+        let diff = doc.transact().encode_state_as_update_v1(&sv);
+        println!("redo update: {:?}", Update::decode_v1(&diff).unwrap());
+        return true;
+    }
+    false
 }
